@@ -4,8 +4,9 @@ C16, part `Regex` — the six `--excl-*` options as PATTERNS of the `regex` crat
 Until this part `Regex::is_match` was a parameter of every C16 theorem (six match bits per source
 line; `Cli.RunAll.Opts.isMatch`). Now
 * `Regex.parse` is the crate's parser on a stated subset of its syntax (GrcovModel/Regex/Syntax.lean:
-  literals, `.`, classes, Unicode `\d \s \w`, escapes, groups, alternation, all repetition forms,
-  `^ $ \A \z \b \B`; every error kind the crate answers inside the subset; `unsupported` – no claim –
+  literals, `.`, classes (ranges, negation, Perl and POSIX classes inside), Unicode `\d \s \w`, escapes
+  (also hex), groups, alternation, all repetition forms,
+  every assertion (`^ $ \A \z \b \B \< \>` and the `\b{…}` forms); every error kind the crate answers inside the subset; `unsupported` – no claim –
   outside it, never a silent difference), `Regex.Matches` is THE SPECIFICATION of `is_match`
   (GrcovModel/Regex/Match.lean: a plain denotation, nothing operational), `Regex.isMatch` an
   executable matcher, `FileFilter.createPat` is `FileFilter::new(r1…r6).create(path)` from the six
@@ -22,7 +23,7 @@ The haystack is ONE source line: a piece of `file.strip_suffix('\n').split('\n')
 trailing `\r` (`srcLine`), so `$` sees the end of a CRLF line's text, a `\r` elsewhere is an ordinary
 char (`.` matches it), and `\n` never occurs in it.
 Helper lemmas: Lemmas/RegexMatch.lean, RegexParse.lean, RegexLit.lean, RegexUtf8.lean,
-RegexTotal.lean, FileFilterRegex.lean, FileFilterRegexRun.lean, FileFilterRegexLit.lean.
+RegexTotal.lean (no fuel), FileFilterRegex.lean, FileFilterRegexRun.lean, FileFilterRegexLit.lean.
 Tie: harness/c16/src/regexsyn.rs (ops `c16.rx.*` of gm_c16): parse outcome and `FileFilter::create`
 against the real crate on generated patterns / lines, the Unicode tables on every scalar value, the
 real binary with pattern options.
@@ -63,19 +64,50 @@ theorem C16_regex_denotation_laws (h : Chars) (a b : Ast) (i j : Nat) :
   ⟨Iff.rfl, Iff.rfl, Iff.rfl, M_opt h a i j, M_star h a i j, M_plus h a i j, fun n => M_exact h a n i j,
    by simp [M, lookHolds], by simp [M, lookHolds]⟩
 
+/-- The six word assertions, by what they ask of the chars around the position (`wordBefore` /
+`wordAt`: the char before / at the position is a `\w` char; outside the line: no): `\b` they differ,
+`\B` they agree, `\<` = `\b{start}` a word begins, `\>` = `\b{end}` a word ends, `\b{start-half}` no word
+char before, `\b{end-half}` no word char after. -/
+theorem C16_regex_word_assertions (h : Chars) (i j : Nat) :
+    (M h (.look .wordB) i j ↔ wordBefore h i ≠ wordAt h i ∧ j = i) ∧
+    (M h (.look .notWordB) i j ↔ wordBefore h i = wordAt h i ∧ j = i) ∧
+    (M h (.look .wordStart) i j ↔ (wordBefore h i = false ∧ wordAt h i = true) ∧ j = i) ∧
+    (M h (.look .wordEnd) i j ↔ (wordBefore h i = true ∧ wordAt h i = false) ∧ j = i) ∧
+    (M h (.look .wordStartHalf) i j ↔ wordBefore h i = false ∧ j = i) ∧
+    (M h (.look .wordEndHalf) i j ↔ wordAt h i = false ∧ j = i) := by
+  simp [M, lookHolds]
+
+/-- `\bfin\b` on `// fin`, `// final`, `éfin` (é is a word char: no boundary before `f`) -/
+example : (parse [92, 98, 102, 105, 110, 92, 98]).toOption.map
+      (fun a => (isMatch a [47, 47, 32, 102, 105, 110], isMatch a [47, 47, 32, 102, 105, 110, 97, 108],
+        isMatch a [233, 102, 105, 110])) = some (true, false, false) := by decide +kernel
+
 /-- Lazy and greedy operators, capturing and non-capturing groups, `{n}` and `{n,n}`, `^` and `\A`,
-`$` and `\z` are the same pattern for `is_match`: they parse to the same tree. -/
+`$` and `\z`, a char and its hex escapes are the same pattern for `is_match`: they parse to the same tree. -/
 example :
     parse [97, 42, 63] = parse [97, 42] ∧                                   -- a*?  a*
     parse [40, 63, 58, 97, 41, 43] = parse [40, 97, 41, 43] ∧               -- (?:a)+  (a)+
     parse [97, 123, 50, 125] = parse [97, 123, 50, 44, 50, 125] ∧           -- a{2}  a{2,2}
     parse [97, 123, 32, 50, 32, 44, 32, 51, 32, 125, 63] = parse [97, 123, 50, 44, 51, 125] ∧  -- a{ 2 , 3 }?
-    parse [94, 97, 36] = parse [92, 65, 97, 92, 122] := by decide           -- ^a$  \Aa\z
+    parse [94, 97, 36] = parse [92, 65, 97, 92, 122] ∧                      -- ^a$  \Aa\z
+    parse [92, 120, 52, 49, 92, 117, 48, 48, 101, 57, 92, 85, 48, 48, 48, 49, 70, 54, 48, 48, 92, 120, 123, 52, 49, 125]
+      = parse [65, 233, 128512, 65] ∧
+    parse [92, 98, 123, 115, 116, 97, 114, 116, 125, 97, 92, 98, 123, 101, 110, 100, 125] = parse [92, 60, 97, 92, 62] := by
+  decide                                                                   -- \b{start}a\b{end}  \<a\>
+
+/-- classes: `[^\W\d_]` on `é` / `7` / `_`; `[[:^space:]x-]` (POSIX class, trailing `-`); `[]a]` (leading `]`) -/
+example :
+    (parse [91, 94, 92, 87, 92, 100, 95, 93]).toOption.map (fun a => (isMatch a [233], isMatch a [55], isMatch a [95]))
+      = some (true, false, false) ∧
+    (parse [91, 91, 58, 94, 115, 112, 97, 99, 101, 58, 93, 120, 45, 93]).toOption.map
+      (fun a => (isMatch a [32], isMatch a [45], isMatch a [233])) = some (false, true, true) ∧
+    parse [91, 93, 97, 93] = .ok (.cls false [.range 93 93, .range 97 97]) := by decide +kernel
+                           -- \x41\u00e9\U0001F600\x{41}  Aé😀A
 
 /-! ### the parser -/
 
 /-- **The parser always answers**: for every pattern text `Regex.parse` gives a tree, one of the
-sixteen error kinds of the crate that can occur inside the subset, or `unsupported` – the loop
+twenty-one error kinds of the crate that can occur inside the subset, or `unsupported` – the loop
 counters of the model (`fuel`) never run out. -/
 theorem C16_regex_parse_total (p : Chars) : parse p ≠ .error .fuel :=
   parse_ne_fuel p
@@ -95,6 +127,10 @@ example :
     parse [97, 92] = .error .escapeUnexpectedEof ∧ parse [92, 101] = .error .escapeUnrecognized ∧
     parse [92, 49] = .error .unsupportedBackreference ∧
     parse [92, 98, 123] = .error .specialWordOrRepUnexpectedEof ∧
+    parse [92, 120, 123, 125] = .error .escapeHexEmpty ∧ parse [92, 117, 68, 56, 48, 48] = .error .escapeHexInvalid ∧
+    parse [92, 120, 52, 103] = .error .escapeHexInvalidDigit ∧
+    parse [92, 98, 123, 101, 110, 100] = .error .specialWordBoundaryUnclosed ∧
+    parse [92, 98, 123, 102, 111, 111, 125] = .error .specialWordBoundaryUnrecognized ∧
     parse [40, 63, 105, 41, 97] = .error .unsupported ∧ parse [92, 112, 76] = .error .unsupported ∧
     parse [92, 119, 123, 52, 48, 125] = .error .unsupported ∧
     parse (List.replicate 251 40 ++ [97] ++ List.replicate 251 41) = .error .nestLimitExceeded := by
@@ -114,6 +150,19 @@ theorem C16_regex_plain_text_parses (cs : Chars) (hp : ∀ c ∈ cs, isMeta c = 
     parse cs = .ok (anchoredAst false false cs) := by
   have := parse_anchored false false cs hlen
   simpa [anchoredText, escape_plain cs hp] using this
+
+/-- **… however the literal is typed**: every char written verbatim (allowed for every char but
+`( ) | [ ? * + { \ . ^ $`) or after a backslash (allowed for every meta character and all other
+ASCII punctuation, as the crate's `is_escapeable_character` says), optionally between `^` and `$`:
+`#\[derive\(`, `//\ NOCOV`, `a\-b` are the chains of literals they look like. -/
+theorem C16_regex_spelled_literal_parses (pre post : Bool) (l : List (Nat × Bool))
+    (hok : ∀ p ∈ l, SpellOk p = true) (hlen : l.length ≤ 19000) :
+    parse (spelledText pre post l) = .ok (anchoredAst pre post (l.map (·.1))) :=
+  parse_spelled pre post l hok hlen
+
+/-- `#\[derive\(` -/
+example : spelledText false false [(35, false), (91, true), (100, false), (40, true)] = [35, 92, 91, 100, 92, 40] ∧
+    (∀ p ∈ [(35, false), (91, true), (100, false), (40, true)], SpellOk p = true) := by decide
 
 /-- `LCOV_EXCL_LINE` has no meta character; `^// [skip]$` is `^` + escape("// [skip]") + `$` -/
 example : (∀ c ∈ [76, 67, 79, 86, 95, 69, 88, 67, 76, 95, 76, 73, 78, 69], isMeta c = false) ∧
@@ -168,6 +217,48 @@ theorem C16_regex_branches (c : Compiled6) (src : List Nat) (n : Nat)
       (LineMatches c.brLine src n ∨ inRegion (LineMatches c.brStart src) (LineMatches c.brStop src) n) :=
   removesBranch_compiled c src n hlen
 
+/-- The two dimensions are independent, pattern-wise: two configurations with the same three line
+patterns remove the same line data from every source, whatever their branch patterns (and
+symmetrically). -/
+theorem C16_regex_independent (c c' : Compiled6) (src : List Nat) (n : Nat)
+    (hlen : (splitSrc src).length ≤ U32MAX) :
+    (c.line = c'.line → c.start = c'.start → c.stop = c'.stop →
+      (removesLine (createSrc c.toOpts c.rx (some src)) n ↔
+        removesLine (createSrc c'.toOpts c'.rx (some src)) n)) ∧
+    (c.brLine = c'.brLine → c.brStart = c'.brStart → c.brStop = c'.brStop →
+      (removesBranch (createSrc c.toOpts c.rx (some src)) n ↔
+        removesBranch (createSrc c'.toOpts c'.rx (some src)) n)) := by
+  constructor
+  · intro h1 h2 h3
+    rw [removesLine_compiled c src n hlen, removesLine_compiled c' src n hlen, h1, h2, h3]
+  · intro h1 h2 h3
+    rw [removesBranch_compiled c src n hlen, removesBranch_compiled c' src n hlen, h1, h2, h3]
+
+/-- Nothing is excluded when none of `--excl-line`, `--excl-start`, `--excl-br-line`,
+`--excl-br-start` is given (stop patterns alone exclude nothing), when the file cannot be read, or
+when its bytes are not UTF-8 (`read_to_string` fails) – whatever the patterns. -/
+theorem C16_regex_nothing_excluded (a : MainGlue.FileFilterArgs) (c : Compiled6)
+    (hc : compileArgs a = .ok c) (file : Option (List Nat))
+    (h : (a.exclLine = none ∧ a.exclStart = none ∧ a.exclBrLine = none ∧ a.exclBrStart = none) ∨
+      file = none ∨ ∃ b, file = some b ∧ decode b = none) :
+    createPat a file = .ok [] := by
+  simp only [createPat, hc]
+  rcases h with ⟨h1, h2, h3, h4⟩ | rfl | ⟨b, rfl, hb⟩
+  · have ht := compileArgs_toOpts hc
+    have hi : c.toOpts.inert = true := by
+      rw [ht]; simp [MainGlue.FileFilterArgs.toOpts, Opts.inert, h1, h2, h3, h4]
+    cases hf : file.bind readToString with
+    | none => simp only [createSrc, create_unreadable]
+    | some s => simp only [createSrc]; rw [create_inert _ hi]
+  · simp only [Option.bind_none, createSrc, create_unreadable]
+  · simp [readToString, hb, createSrc, create_unreadable]
+
+/-- `--excl-stop X --excl-br-stop Y` alone; a file that is not UTF-8 -/
+example : createPat ⟨none, none, some [120], none, none, some [121]⟩ (some [120, 10, 121, 10]) = .ok [] ∧
+    createPat ⟨some [120], none, none, none, none, none⟩ (some [120, 10, 255, 10]) = .ok [] ∧
+    createPat ⟨some [120], none, none, none, none, none⟩ (some [120, 10, 121, 10]) = .ok [.line 1] := by
+  decide +kernel
+
 /-- **From the command line to the filter list.** `FileFilter::new(…).create(path)` on the six
 command-line values: when every given value is UTF-8 and compiles, the filter list is `createSrc`
 with the compiled patterns on the text `read_to_string` returns (nothing when the bytes are not
@@ -212,7 +303,8 @@ theorem C16_regex_literal_markers (l s p bl bs bp : Option Chars) (hl : OkText l
       (∀ n, removesBranch fs n ↔ 1 ≤ n ∧ n ≤ (splitSrc file).length ∧
         (OptContains bl file n ∨ inRegion (OptContains bs file) (OptContains bp file) n)) := by
   have hc := compileArgs_litArgs l s p bl bs bp hl hs hp hbl hbs hbp
-  refine ⟨_, by simp [createPat, hc, readToString, hutf], fun n => ?_, fun n => ?_⟩
+  refine ⟨_, by simp only [createPat, hc, readToString, hutf, if_true, Option.bind_some]; rfl,
+    fun n => ?_, fun n => ?_⟩
   · rw [removesLine_compiled _ file n hlen]
     simp only [LineMatches_literal]
     exact and_congr Iff.rfl (and_congr Iff.rfl (or_congr Iff.rfl
@@ -249,6 +341,34 @@ example : cliExit lcovArgs = none ∧ (decode RxWit.file).isSome = true ∧
 example : OkText (some [76, 67, 79, 86, 95, 69, 88, 67, 76, 95, 76, 73, 78, 69]) ∧ OkText none :=
   ⟨fun cs h => by cases h; exact ⟨by decide, by decide⟩, fun _ h => by cases h⟩
 
+/-- **Conservative over the substring model.** For ASCII literal markers (the conventional
+`LCOV_EXCL_*`, `NOCOV`, … ) and every UTF-8 file – whatever non-ASCII text its lines hold – the filter
+list of the compiled patterns IS the filter list of the byte-wise substring search `Rx.ofLiterals`
+(`hasSub`): the model behind the `ffsrc` tie, and the `isMatch := hasSub` instance with which the
+whole-run ties of C02 / C03 / C05 / C16 drive `Cli.RunAll.run` byte for byte against the real binary. -/
+theorem C16_regex_conservative_literals (l s p bl bs bp : Option Chars) (hl : OkText l) (hs : OkText s)
+    (hp : OkText p) (hbl : OkText bl) (hbs : OkText bs) (hbp : OkText bp)
+    (al : AsciiText l) (as : AsciiText s) (ap : AsciiText p) (abl : AsciiText bl) (abs : AsciiText bs)
+    (abp : AsciiText bp) (file : List Nat) (hutf : (decode file).isSome = true) :
+    createPat (litArgs l s p bl bs bp) (some file) =
+      .ok (createSrc ⟨l.isSome, s.isSome, p.isSome, bl.isSome, bs.isSome, bp.isSome⟩
+        (Rx.ofLiterals (l.getD []) (s.getD []) (p.getD []) (bl.getD []) (bs.getD []) (bp.getD []))
+        (some file)) := by
+  have hc := compileArgs_litArgs l s p bl bs bp hl hs hp hbl hbs hbp
+  have := createSrc_literals_ascii l s p bl bs bp al as ap abl abs abp file hutf
+  simp only [createPat, hc, readToString, hutf, if_true, Option.bind_some]
+  exact congrArg Except.ok this
+
+/-- `--excl-line NOCOV --excl-start BEGINX` on `é // NOCOV` CRLF `名 BEGINX` LF `x` LF: both models give
+`L1,L2,L3` -/
+example :
+    createPat (litArgs (some [78, 79, 67, 79, 86]) (some [66, 69, 71, 73, 78, 88]) none none none none)
+      (some [195, 169, 32, 47, 47, 32, 78, 79, 67, 79, 86, 13, 10, 229, 144, 141, 32, 66, 69, 71, 73, 78, 88, 10, 120, 10])
+      = .ok [.line 1, .line 2, .line 3] ∧
+    createSrc ⟨true, true, false, false, false, false⟩ (Rx.ofLiterals [78, 79, 67, 79, 86] [66, 69, 71, 73, 78, 88] [] [] [] [])
+      (some [195, 169, 32, 47, 47, 32, 78, 79, 67, 79, 86, 13, 10, 229, 144, 141, 32, 66, 69, 71, 73, 78, 88, 10, 120, 10])
+      = [.line 1, .line 2, .line 3] := by decide +kernel
+
 /-- **A whole-line marker**: `--excl-line '^TEXT$'` alone (TEXT escaped) removes the line count of
 exactly the lines that ARE the text – after the CR of a CRLF ending was removed – and no branch data. -/
 theorem C16_regex_whole_line_marker (t : Chars) (hs : ∀ c ∈ t, isScalar c = true) (ht : t.length ≤ 19000)
@@ -258,7 +378,8 @@ theorem C16_regex_whole_line_marker (t : Chars) (hs : ∀ c ∈ t, isScalar c = 
   have hc : compileArgs ⟨some (encAll (anchoredText true true t)), none, none, none, none, none⟩
       = .ok ⟨some (anchoredAst true true t), none, none, none, none, none⟩ := by
     simp [compileArgs, compileOpt, compile_anchored true true t hs ht]
-  refine ⟨_, by simp [createPat, hc, readToString, hutf], fun n => ?_, fun n => ?_⟩
+  refine ⟨_, by simp only [createPat, hc, readToString, hutf, if_true, Option.bind_some]; rfl,
+    fun n => ?_, fun n => ?_⟩
   · rw [removesLine_compiled _ file n hlen, LineMatches_whole]
     constructor
     · rintro ⟨_, _, h | h⟩
@@ -284,6 +405,19 @@ theorem C16_regex_haystack (body : List Nat) (hb : ∀ b ∈ body, b ≠ 10) (re
     srcLine body 1 = some (stripCR body) ∧ srcLine (body ++ [10]) 1 = some (stripCR body) :=
   srcLine_first body hb rest
 
+/-- **Every line of a UTF-8 file is UTF-8**: when `read_to_string` succeeds, each haystack decodes
+(a line feed or carriage return byte is never part of a multi-byte char), so the "not UTF-8 ⇒ no
+match" fall-back of `lineMatch` is never taken and `LineMatches` quantifies over a line that has chars. -/
+theorem C16_regex_lines_are_utf8 (src : List Nat) (hs : (decode src).isSome = true) (n : Nat)
+    (l : List Nat) (hl : srcLine src n = some l) : ∃ cs, decode l = some cs :=
+  Option.isSome_iff_exists.1 (srcLine_decodes src hs n l hl)
+
+/-- `é` CRLF `名x` LF: two lines, both decode -/
+example : (decode [195, 169, 13, 10, 229, 144, 141, 120, 10]).isSome = true ∧
+    srcLine [195, 169, 13, 10, 229, 144, 141, 120, 10] 1 = some [195, 169] ∧
+    srcLine [195, 169, 13, 10, 229, 144, 141, 120, 10] 2 = some [229, 144, 141, 120] ∧
+    decode [229, 144, 141, 120] = some [21517, 120] := by decide
+
 /-! ### inside a whole run -/
 
 /-- **The markers of a whole run are patterns.** In `Cli.RunAll.run` with `isMatch := isMatchText`
@@ -304,6 +438,23 @@ theorem C16_regex_run_record (o : Cli.RunAll.Opts) (w : Cli.RunAll.World) (c : C
   rw [filterList_compiled o w abs c hm hc, h]
   exact ⟨removesLine_compiled c src n hlen, removesBranch_compiled c src n hlen⟩
 
+/-- **The byte-for-byte run ties are ties of the regex model.** The whole-run streams of the harness
+drive `Cli.RunAll.run` with `isMatch := hasSub` and plain ASCII markers (`NOCOV`, `BEGINX`, … : no meta
+character); for such markers, on every text that is UTF-8, the run model with `isMatch := isMatchText`
+computes the same filter list – hence, file by file, the same records and the same report bytes. -/
+theorem C16_regex_run_conservative (o : Cli.RunAll.Opts) (w : Cli.RunAll.World) (abs src : List Nat)
+    (h : w.text abs = some src) (hutf : (decode src).isSome = true)
+    (h1 : PlainAscii o.excl.exclLine) (h2 : PlainAscii o.excl.exclStart) (h3 : PlainAscii o.excl.exclStop)
+    (h4 : PlainAscii o.excl.exclBrLine) (h5 : PlainAscii o.excl.exclBrStart) (h6 : PlainAscii o.excl.exclBrStop) :
+    Cli.RunAll.filterList { o with isMatch := isMatchText } w abs
+      = Cli.RunAll.filterList { o with isMatch := hasSub } w abs :=
+  filterList_plain_ascii o w abs src h hutf h1 h2 h3 h4 h5 h6
+
+/-- the markers of the run streams are plain ASCII -/
+example : PlainAscii (some [78, 79, 67, 79, 86]) ∧ PlainAscii (some [66, 69, 71, 73, 78, 88]) ∧ PlainAscii none :=
+  ⟨fun cs h => by cases h; exact ⟨by decide, by decide⟩, fun cs h => by cases h; exact ⟨by decide, by decide⟩,
+   fun _ h => by cases h⟩
+
 /-- a run with `--excl-line '\bNOCOV\b' --excl-br-start '^\s*//<<'` on a three-line file -/
 example :
     let o : Cli.RunAll.Opts :=
@@ -319,3 +470,4 @@ example :
   decide +kernel
 
 end Grcov.Props.C16
+
